@@ -621,6 +621,9 @@ class SqlalchemyRender:
             }
             if col.nullable is not None:
                 kwargs['nullable'] = col.nullable
+            if isinstance(col_type, str) and not re.match('^(INT|BIGINT|SMALLINT|INTEGER)', col_type.upper()):
+                # sqlalchemy makes a lone primary key column of any numeric type auto-incrementing (float -> SERIAL / FLOAT AUTO_INCREMENT)
+                kwargs['autoincrement'] = False
 
             sa_type = self.get_type(col_type)
             if col.length is not None and isinstance(sa_type, type):
